@@ -273,8 +273,8 @@ func runObligation(l *loaded, ob Obligation, tier int, seed int64, known map[str
 	}
 	if tier > 0 {
 		to *= 6
-		if to > 2400 {
-			to = 2400 // thorough: at most 40 minutes per obligation (a cap that is hit is reported as INCONCLUSIVE)
+		if to > 1200 {
+			to = 1200 // thorough: at most 20 minutes per obligation (a cap that is hit is reported as INCONCLUSIVE)
 		}
 		if cfg.QueryTimeout == 0 {
 			cfg.QueryTimeout = 120000
